@@ -94,7 +94,11 @@ def keccak256Arr (msg : Array UInt8) : Array UInt8 := Id.run do
       out := out.push (lane >>> (8 * k).toUInt64).toUInt8
   return out
 
-/-- Keccak-256 of a byte string. -/
-def keccak256 (msg : Bytes) : Bytes := (keccak256Arr msg.toArray).toList
+/-- Keccak-256 of a byte string (32 bytes: padded / cut to 32 by construction, which changes nothing — the sponge
+    squeezes exactly 32 bytes, see the known-answer tests — but makes the length a one-line lemma). -/
+def keccak256 (msg : Bytes) : Bytes := ((keccak256Arr msg.toArray).toList ++ List.replicate 32 0).take 32
+
+theorem keccak256_length (msg : Bytes) : (keccak256 msg).length = 32 := by
+  simp [keccak256]
 
 end FFS.Prim
